@@ -78,3 +78,12 @@ package app
 //@ func RequestContext.IsAborted(ctx) r
 //@   props C12
 //@   ensures r == (ctx.index >= 63)
+
+// ---- C08: byte-range parser ----
+//@ func ParseByteRange(byteRange, contentLength) startPos, endPos, err
+//@   props C08, C03
+//@   witness byteRange = "bytes=-1", contentLength = 0
+//@   witness byteRange = "bytes=-0", contentLength = 5
+//@   requires contentLength >= 0
+//@   top-ensures err == nil ==> 0 <= startPos && startPos <= endPos && endPos < contentLength
+//@   ensures err == nil ==> len(byteRange) >= 8 && matchAt(byteRange, 0, "bytes=")
